@@ -22,6 +22,10 @@ fn is_var(sym: char, width: usize) -> bool {
 fn sep(u: &mut Unstructured, first_not_digit: bool, not_colon: bool) -> arbitrary::Result<Tok> {
     const FIRST: &[char] = &[' ', '-', '/', ':', '.', ',', '_', 'T', ' ', '-', ':', 'é', '日'];
     const REST: &[char] = &[' ', '-', '/', ':', '.', 'T', '0', '7'];
+    // after a width-5 zone a ':' is only ambiguous when a digit follows it
+    if not_colon && u.coin(1, 3)? {
+        return Ok(Tok::Lit(format!(":{}", u.choose(&[" ", "-", "T", "é", ":", "", "/"])?)));
+    }
     loop {
         let k = u.below(8)?;
         let tok = match k {
@@ -41,7 +45,7 @@ fn sep(u: &mut Unstructured, first_not_digit: bool, not_colon: bool) -> arbitrar
             1 => Tok::Apostrophe,
             _ => {
                 let mut s = String::new();
-                let c = *u.choose(FIRST)?;
+                let c = if u.coin(1, 5)? { crate::props::c11::random_non_ascii(u)? } else { *u.choose(FIRST)? };
                 if not_colon && c == ':' {
                     continue;
                 }
@@ -264,7 +268,15 @@ impl Prop for RoundTrip {
                     return Verdict::Skip("outside the unambiguous grammar: variable-width field followed by a digit");
                 }
                 if (*sym == 'x' || *sym == 'X') && *width == 5 && next_char == Some(':') {
-                    return Verdict::Skip("outside the unambiguous grammar: width-5 zone followed by ':'");
+                    // ambiguous only if a digit follows the colon (it would read as offset seconds)
+                    let second = match fmt::render(&t[i + 1..], &f, c.off) {
+                        Ok(rest) => rest.chars().nth(1),
+                        Err(why) => return Verdict::Skip(why),
+                    };
+                    if matches!(second, Some(ch) if ch.is_ascii_digit()) {
+                        return Verdict::Skip("outside the unambiguous grammar: width-5 zone followed by ':' and a digit");
+                    }
+                    cx.nt("zone_width_5_followed_by_colon_non_digit");
                 }
             }
         }
